@@ -891,6 +891,25 @@ impl<VM: VMBinding> ImmixSpace<VM> {
         self.line_unavail_state.load(Ordering::Acquire)
     }
 
+    /// Verification accessor (unit harness): overwrite both line states.
+    #[cfg(feature = "mmtk_verif")]
+    pub fn verif_set_line_states(&self, current: u8, unavail: u8) {
+        self.line_mark_state.store(current, Ordering::Release);
+        self.line_unavail_state.store(unavail, Ordering::Release);
+    }
+
+    /// Verification accessor (unit harness): the real `Block::sweep` of one block with a fresh
+    /// histogram. Returns 0 = Swept, 1 = Reused, 2 = NoReuse.
+    #[cfg(feature = "mmtk_verif")]
+    pub fn verif_sweep_block(&self, block: Block, line_mark_state: u8) -> u8 {
+        let mut histogram = self.defrag.new_histogram();
+        match block.sweep(self, &mut histogram, Some(line_mark_state)) {
+            BlockSweepResult::Swept => 0,
+            BlockSweepResult::Reused => 1,
+            BlockSweepResult::NoReuse => 2,
+        }
+    }
+
     pub fn is_last_gc_exhaustive(&self, did_defrag_for_last_gc: bool) -> bool {
         if self.is_defrag_enabled() {
             did_defrag_for_last_gc
